@@ -148,6 +148,23 @@ class World:
         self.log = []       # effects: (op, path Str, extra)
         self.fault = None   # callable(op, path Str) -> bool  (True: this call fails)
         self.clock = 0
+        self.cwd = Str('/')
+
+    def abs(self, s):
+        """absolute, lexically normalised form of a path (relative paths are resolved against cwd)"""
+        if not is_absolute(s):
+            s = join(self.cwd, s)
+        out = []
+        for c in components(s):
+            if len(c.cs) == 2 and decide(V.str_eq(c, Str('..'))):
+                if out:
+                    out.pop()
+                continue
+            out.append(c)
+        r = Str('')
+        for c in out:
+            r = Str(r.cs + (SEP,) + c.cs)
+        return r if out else Str('/')
 
     def add_file(self, path, content=''):
         self.entries.append([Str(path) if isinstance(path, str) else path, 'file',
@@ -157,8 +174,9 @@ class World:
         self.entries.append([Str(path) if isinstance(path, str) else path, 'dir', None])
 
     def find(self, s):
+        s = self.abs(s)
         for e in self.entries:
-            if decide(norm_eq(e[0], s)):
+            if decide(norm_eq(self.abs(e[0]), s)):
                 return e
         return None
 
@@ -171,21 +189,23 @@ class World:
         self.log.append((op, s, extra))
 
     def children(self, s):
+        s = self.abs(s)
         base = components(s)
         out = []
         for e in self.entries:
-            c = components(e[0])
-            if len(c) == len(base) + 1 and is_absolute(e[0]) == is_absolute(s) and \
+            c = components(self.abs(e[0]))
+            if len(c) == len(base) + 1 and \
                     decide(z_and(*[V.str_eq(x, y) for x, y in zip(c, base)])):
                 out.append(e)
         return out
 
     def descendants(self, s):
+        s = self.abs(s)
         base = components(s)
         out = []
         for e in self.entries:
-            c = components(e[0])
-            if len(c) > len(base) and is_absolute(e[0]) == is_absolute(s) and \
+            c = components(self.abs(e[0]))
+            if len(c) > len(base) and \
                     decide(z_and(*[V.str_eq(x, y) for x, y in zip(c, base)])):
                 out.append(e)
         return out
@@ -204,8 +224,9 @@ def world(interp):
 def create_dir_all(w, s):
     if w.fails('create_dir_all', s):
         return Err(io_error('PermissionDenied', 'create_dir_all'))
+    s = w.abs(s)
     comps = components(s)
-    cur = Str('/') if is_absolute(s) else Str('')
+    cur = Str('/')
     for c in comps:
         cur = join(cur, c) if len(cur.cs) else c
         e = w.find(cur)
@@ -220,6 +241,7 @@ def create_dir_all(w, s):
 def write(w, s, content):
     if w.fails('write', s):
         return Err(io_error('PermissionDenied', 'write'))
+    s = w.abs(s)
     par = parent(s)
     if par is not None and len(par.cs) > 0:
         pe = w.find(par)
@@ -244,7 +266,7 @@ def remove_file(w, s):
     if e is None or e[1] != 'file':
         return Err(io_error('NotFound'))
     w.entries.remove(e)
-    w.effect('remove', s, e[2])
+    w.effect('remove', w.abs(s), e[2])
     return Ok(())
 
 
@@ -440,6 +462,18 @@ for _n in ('PathBuf', 'OsString', 'OsStr'):
 B.EXT_STRUCT_MODELS['DirEntry'] = DirEntryModel
 B.EXT_STRUCT_MODELS['Metadata'] = MetaModel
 B.EXT_STRUCT_MODELS['FileType'] = MetaModel
+
+
+class PermModel:
+    @staticmethod
+    def call_method(i, v, name, a, pl, h, tf, ctx):
+        if name == 'readonly':
+            # the modelled world has no read-only directories (permissions are outside the claim)
+            return False
+        return NotImplemented
+
+
+B.EXT_STRUCT_MODELS['Permissions'] = PermModel
 B.EXT_STRUCT_MODELS['io::Error'] = IoErrorModel
 
 
@@ -499,7 +533,7 @@ def _fs_paths(interp, segs, args, hint, generics):
             r2 = write(w, pstr(args[1]), r.vals[0])
             return r2 if r2.var == 'Err' else Ok(B.UIntC(0))
         if name == 'rename':
-            src, dst = pstr(args[0]), pstr(args[1])
+            src, dst = w.abs(pstr(args[0])), w.abs(pstr(args[1]))
             if w.fails('rename', src):
                 return Err(io_error('PermissionDenied'))
             e = w.find(src)
@@ -519,7 +553,7 @@ def _fs_paths(interp, segs, args, hint, generics):
         raise Inconclusive('fs::%s is not modelled' % name)
     if ty == 'env' and name == 'current_dir':
         h = interp.hooks.get('env::current_dir')
-        return Ok(mkpath(h() if h else Str('/cwd')))
+        return Ok(mkpath(h() if h else world(interp).cwd))
     if ty == 'env' and name == 'var':
         h = interp.hooks.get('env::var')
         if h is None:
